@@ -520,9 +520,35 @@ def check_C10(tier):
     return run_check("C10", tier, stages_C10(tier), C10_RULE, assumptions=EVAL_ASSUME)
 
 
-CHECKS = {"C09": check_C09, "C10": check_C10, "C01": check_C01, "C02": check_C02, "C05": check_C05, "C06": check_C06, "C07": check_C07,
+# ---------------------------------------------------------------------------
+# C17
+
+def stages_C17(tier):
+    modes = "struct:noopt,struct:opt,ptr:opt"
+    n = 5 if tier == "quick" else 6
+    return [Stage("ovl-n%d" % n, "MC_Expr", gen_cfg("ovl", n, emit="ovl", invariants=("EmitOvl", "OvlTyped")), "C17",
+                  modes=modes, timeout=2400),
+            Stage("ovl-branches-n%d" % (n + 1), "MC_Expr",
+                  gen_cfg("ovlb", n + 1, emit="ovl", invariants=("EmitOvl", "OvlTyped")), "C17", modes=modes, timeout=2400),
+            Stage("ovl-sim", "MC_Expr", gen_cfg("ovl", 12, maxclosure=3, emit="ovl", invariants=("EmitOvl", "OvlTyped")),
+                  "C17", modes=modes, simulate=1500 if tier == "quick" else 8000, depth=14, warm=False)]
+
+
+C17_RULE = ("TLC: every expression of family 'ovl' up to the node budget (int, float, any, int64 operands; `+` inside "
+            "closures, conditionals, arguments, index and slice bounds, sliced operands, array and map literals) + random "
+            "derivations; Types!Overload rewrites exactly the occurrences of `+` whose operands are both statically int "
+            "into Add(l, r) (OvlTyped: Types!TypeOf agrees with the generator's typing in every state); the real library "
+            "compiled with Operator(\"+\", \"Add\") must return the value, failure and call log (each Add with its operands, in "
+            "order) of the rewritten tree; mappings naming a missing, one-parameter or non-function member must be rejected")
+
+
+def check_C17(tier):
+    return run_check("C17", tier, stages_C17(tier), C17_RULE, assumptions=EVAL_ASSUME)
+
+
+CHECKS = {"C17": check_C17, "C09": check_C09, "C10": check_C10, "C01": check_C01, "C02": check_C02, "C05": check_C05, "C06": check_C06, "C07": check_C07,
           "C14": check_C14, "C15": check_C15, "C18": check_C18}
-STAGES = {"C09": stages_C09, "C10": stages_C10, "C01": stages_C01, "C02": stages_C02, "C05": stages_C05, "C06": stages_C06, "C07": stages_C07,
+STAGES = {"C17": stages_C17, "C09": stages_C09, "C10": stages_C10, "C01": stages_C01, "C02": stages_C02, "C05": stages_C05, "C06": stages_C06, "C07": stages_C07,
           "C14": stages_C14, "C15": stages_C15, "C18": stages_C18}
 
 
